@@ -30,6 +30,8 @@ def op_name(ops_line):
     t = ops_line.split(" | ")[0].split(" ")
     if len(t) < 2:
         return "?"
+    if t[1] == "clonefrom":
+        return "clone"
     if t[1] in ("new", "clone", "drop"):
         return t[1]
     return t[2] if len(t) > 2 else "?"
@@ -142,7 +144,7 @@ def parse_fields(line):
 
 BASE = [("rand", 600, []), ("tiny", 600, []), ("wide", 40, []), ("mutate", 200, []), ("insert", 200, []),
         ("order", 100, []), ("retain", 100, []), ("iter", 150, []), ("clone", 100, []), ("capacity", 40, []),
-        ("churn", 3, []), ("huge", 1, []), ("exh", 0, ["--depth", "2"])]
+        ("churn", 3, []), ("huge", 1, []), ("tomb", 0, []), ("panic", 60, []), ("exh", 0, ["--depth", "2"])]
 
 
 def fam(name, seqs, *extra):
